@@ -66,6 +66,7 @@ static void g_local(hbuf *b, gmbox *m) {
 static void g_host(hbuf *b, gmbox *m) {
   uint32_t k = h_below(10);
   m->hn = 0;
+  if (h_below(40) == 0) { g_c(b, '+'); m->h[m->hn++] = '+'; return; }   /* the bare host "+" (audit: rwplus leaves an EMPTY atom) */
   if (k == 0) { /* domain literal */
     static const char *lits[] = { "[1.2.3.4]", "[127.0.0.1]", "[10.0.0.255]", "[x]" };
     const char *s = lits[h_below(4)];
